@@ -109,7 +109,8 @@ def generate(rng, tier):
         for row in grp:
             if keep_expected(row)[1]:
                 draws.append(row["draw"])
-        cases.append(dict(kind="history", draws=draws + [[1, 2]] * 3, runs=[row_run(r) for r in grp], cassette="memory"))
+        cases.append(dict(kind="history", draws=draws + [[1, 2]] * 3, runs=[row_run(r) for r in grp], cassette="memory",
+                          predeclare=(k // 3) % 2 == 0))
     # S3 storage-level rule
     for ratio in [None, [0, 1], [1, 4], [1, 2], TENTH, [1, 1], [3, 2]]:
         r = None if ratio is None else Fraction(*ratio)
